@@ -273,7 +273,12 @@ func (w *l2World) makeHook(spec *modelL2, to string, dep sdk.Coin) []byte {
 			lbl = k
 		}
 	}
-	class := []string{"good", "good", "good", "failmsg", "badsig", "staleseq", "hungry", "garbage", "unrouted", "wdhook"}[w.r.Intn(10)]
+	class := []string{"good", "good", "good", "failmsg", "badsig", "staleseq", "hungry", "garbage", "unrouted", "wdhook", "wdhook+send", "wdhook+fail"}[w.r.Intn(12)]
+	wdTail := ""
+	if strings.HasPrefix(class, "wdhook+") {
+		wdTail = strings.TrimPrefix(class, "wdhook+")
+		class = "wdhook"
+	}
 	if class == "wdhook" && w.avoidKnown && core.Known.Listed(w.p.Prop, "hook-withdrawal-not-announced") {
 		class = "good"
 	}
@@ -343,6 +348,18 @@ func (w *l2World) makeHook(spec *modelL2, to string, dep sdk.Coin) []byte {
 		}
 		hs.Withdraw = wm
 		msgs = append(msgs, wm)
+		switch wdTail {
+		case "send":
+			// the withdrawal is not the last message of the payload
+			rcpt, _ := sdk.AccAddressFromBech32(w.pickUser())
+			mkSend(big.NewInt(int64(1+w.r.Intn(100))), "umin", rcpt)
+		case "fail":
+			// a later message fails: the whole payload (including the withdrawal) must leave nothing behind
+			rcpt, _ := sdk.AccAddressFromBech32(w.pickUser())
+			msgs = append(msgs, &banktypes.MsgSend{FromAddress: signer.String(), ToAddress: rcpt.String(), Amount: sdk.NewCoins(sdk.NewCoin("umin", math.NewIntFromBigInt(new(big.Int).Lsh(big.NewInt(1), 100))))})
+			hs.Class = "failmsg"
+			hs.Withdraw = nil
+		}
 	case "unrouted":
 		// a message type no handler is registered for on the L2
 		msgs = append(msgs, &ophosttypes.MsgRecordBatch{Submitter: signer.String(), BridgeId: 1, BatchBytes: []byte{1}})
@@ -908,11 +925,15 @@ func (w *l2World) execBlock(bc blockCtx, txs []l2Pending, crash string) *core.Vi
 
 // classifyPlan names the input class of a plan against the current model state.
 func (w *l2World) classifyPlan(plan *node.PlanReg) string {
+	key := node.ValKey(w.planKey[plan.Height]).PubKey().Bytes()
 	cls := ""
-	if _, known := w.m.Vals[w.planOp[plan.Height]]; known {
+	if v, known := w.m.Vals[w.planOp[plan.Height]]; known {
+		if bytes.Equal(v.PubKey, key) {
+			return "same-operator-same-key" // the plan keeps an existing validator as the sequencer
+		}
 		cls = "known-operator"
 	}
-	if v := w.m.valByKey(node.ValKey(w.planKey[plan.Height]).PubKey().Bytes()); v != nil && v.Operator != w.planOp[plan.Height] {
+	if v := w.m.valByKey(key); v != nil && v.Operator != w.planOp[plan.Height] {
 		if cls != "" {
 			cls += "+"
 		}
@@ -1117,7 +1138,17 @@ func (w *l2World) registerPlan(bc blockCtx) *core.Violation {
 	}
 	tag := "fresh-operator,fresh-key"
 	ops := w.m.valOps()
-	kindSel := r.Weighted([]int{6, 2, 2})
+	kindSel := r.Weighted([]int{6, 2, 2, 2})
+	if kindSel == 3 && len(ops) > 0 {
+		// keep an existing validator (same operator, same key) as the only sequencer
+		v := w.m.Vals[ops[r.Intn(len(ops))]]
+		for _, l := range w.valPool {
+			if valOperator(l).String() == v.Operator && bytes.Equal(node.ValKey(l).PubKey().Bytes(), v.PubKey) {
+				opLbl, keyLbl = l, l
+				tag = "same-operator,same-key"
+			}
+		}
+	}
 	if kindSel == 1 && len(ops) > 0 && !avoidOp {
 		// reuse a known operator address (with a new key)
 		for _, l := range w.valPool {
